@@ -39,6 +39,7 @@ type Exec struct {
 	usedSpecs map[string]bool // callee contracts used
 	inlined  map[string]bool
 	externals map[string]bool
+	anchorsHit map[int]bool
 	lateKeys int
 	prereg   []preregKey
 	havocSeen bool
@@ -374,7 +375,7 @@ func (e *Engine) VerifyFunction(fn *ssa.Function) (ctx *Ctx, x *Exec, err error)
 	var prereg []preregKey
 	for pass := 0; pass < 3; pass++ {
 		x = &Exec{eng: e, ctx: NewCtx(fullKey(fn)), heap: newHeapInfo(), root: fn, rootSpec: spec, rootName: fullKey(fn),
-			strs: map[string]string{}, counters: map[string]int{}, usedSpecs: map[string]bool{}, inlined: map[string]bool{}, externals: map[string]bool{}}
+			strs: map[string]string{}, counters: map[string]int{}, anchorsHit: map[int]bool{}, usedSpecs: map[string]bool{}, inlined: map[string]bool{}, externals: map[string]bool{}}
 		err = x.runRoot(prereg)
 		if err != nil {
 			return x.ctx, x, err
@@ -448,7 +449,20 @@ func (x *Exec) runRoot(prereg []preregKey) (err error) {
 		o := x.oblige("cover", "pre", "true", "false", fn.Pos(), nil, "precondition is satisfiable")
 		o.Expected = "sat"
 	}
+	if x.rootSpec != nil {
+		for _, g := range x.rootSpec.GhostVars {
+			st.gvars[g.Name] = x.nameVal("g_"+g.Name, env.eval(g.Init))
+		}
+	}
+	a.ghostAt("entry", st, "true", nil, nil)
 	a.run("true", st)
+	if x.rootSpec != nil {
+		for gi, g := range x.rootSpec.Ghost {
+			if !x.anchorsHit[gi] {
+				efail("ghost statement anchor %q matches no point of %s", g.Anchor, x.rootName)
+			}
+		}
+	}
 	return nil
 }
 
@@ -470,6 +484,7 @@ func (a *Activation) env(st *State, old *State) *Env {
 	e := &Env{x: a.x, st: st, old: old, vars: map[string]Val{}, pkg: pkg}
 	for k, v := range a.params {
 		e.vars[k] = v
+		e.vars[k+"0"] = v // entry value of a (possibly reassigned) parameter
 	}
 	for k, v := range st.gvars {
 		e.vars[k] = v
@@ -756,8 +771,14 @@ func (a *Activation) doReturn(ins *ssa.Return, rs []Val, st *State, rc string) {
 		if label == "" {
 			label = fmt.Sprint(i + 1)
 		}
-		goal := env.evalBool(en.E)
-		x.oblige("post", label, rc, goal, ins.Pos(), en.Tags, en.Text)
+		cs := env.conjuncts(en.E, 0)
+		for k, cj := range cs {
+			l := label
+			if len(cs) > 1 {
+				l = fmt.Sprintf("%s.%d", label, k+1)
+			}
+			x.oblige("post", l, rc, cj.Term, ins.Pos(), en.Tags, cj.Text)
+		}
 	}
 }
 
@@ -817,7 +838,9 @@ func (a *Activation) val(v ssa.Value) Val {
 	case *ssa.Function:
 		return scalar(a.typ(v.Type()), x.funcRef(v))
 	case *ssa.Global:
-		unsup("global variable %s", v.Name())
+		// package-level variables are treated as immutable unknown constants (no function under contract assigns one)
+		t := a.typ(v.Type()).Underlying().(*types.Pointer).Elem()
+		return Val{K: KLoc, T: a.typ(v.Type()), Loc: &Loc{K: LGlobal, Name: v.RelString(nil), T: t}}
 	case *ssa.FreeVar:
 		unsup("closure free variable %s", v.Name())
 	case *ssa.Builtin:
@@ -1099,6 +1122,17 @@ func (a *Activation) load(p Val, st *State, rc string, pos token.Pos) Val {
 				unsup("load from unknown local cell")
 			}
 			return v
+		case LGlobal:
+			if isUnitType(l.T) {
+				return x.ctx.zero(l.T)
+			}
+			if !isScalarType(l.T) {
+				unsup("global variable %s of type %s", l.Name, typeStr(l.T))
+			}
+			name := "global_" + sanitize(l.Name)
+			x.ctx.DeclFun(name, nil, x.ctx.sortOf(l.T))
+			x.note("package variable " + l.Name + " is treated as an immutable constant")
+			return scalar(l.T, name)
 		}
 	case KScalar:
 		// pointer to struct: load the whole struct value
@@ -1576,7 +1610,14 @@ func (a *Activation) loopHead(li *loopInfo, st *State, rc string) (*State, strin
 			if label == "" {
 				label = fmt.Sprint(i + 1)
 			}
-			x.oblige(a.oname(fmt.Sprintf("loop%d:inv-init", li.ord)), label, rc, env.evalBool(inv.E), pos, inv.Tags, inv.Text)
+			cs := env.conjuncts(inv.E, 0)
+			for k, cj := range cs {
+				l := label
+				if len(cs) > 1 {
+					l = fmt.Sprintf("%s.%d", label, k+1)
+				}
+				x.oblige(a.oname(fmt.Sprintf("loop%d:inv-init", li.ord)), l, rc, cj.Term, pos, inv.Tags, cj.Text)
+			}
 		}
 	} else {
 		x.note(fmt.Sprintf("loop %d of %s has no invariant (treated as 'true')", li.ord, a.fn.Name()))
@@ -1613,6 +1654,38 @@ func (a *Activation) loopHead(li *loopInfo, st *State, rc string) (*State, strin
 							c.Assume(x.typeInv(nv, st.alloc))
 							st.locals[al] = nv
 						}
+					}
+				}
+			}
+		}
+	}
+	// function-level ghost variables may be assigned anywhere in the loop: they become arbitrary
+	if a.spec != nil && a.depth == 0 {
+		for _, g := range a.spec.GhostVars {
+			if old, ok := st.gvars[g.Name]; ok && old.K == KScalar {
+				nv := old
+				srt := old.Srt
+				if srt == "" {
+					srt = c.sortOf(old.T)
+				}
+				nv.S = c.Fresh("g_"+g.Name, srt)
+				st.gvars[g.Name] = nv
+			}
+		}
+	}
+	// ghost state of map ranges advanced inside this loop
+	for _, b := range blocks {
+		for _, ins := range b.Instrs {
+			if nx, ok := ins.(*ssa.Next); ok && !nx.IsString {
+				if rg, ok := nx.Iter.(*ssa.Range); ok {
+					n := a.rangeOrd(rg)
+					vk, ck := fmt.Sprintf("visited%d", n), fmt.Sprintf("nvisited%d", n)
+					if old, has := st.gvars[vk]; has {
+						nv := old
+						nv.S = c.Fresh(vk, old.Srt)
+						st.gvars[vk] = nv
+						st.gvars[ck] = intVal(c.Fresh(ck, "Int"))
+						c.Assume(app(">=", st.gvars[ck].S, "0"))
 					}
 				}
 			}
@@ -1724,7 +1797,14 @@ func (a *Activation) backEdge(li *loopInfo, from *ssa.BasicBlock, st *State, con
 		if label == "" {
 			label = fmt.Sprint(i + 1)
 		}
-		x.oblige(a.oname(fmt.Sprintf("loop%d:inv-keep", li.ord)), label, cond, env.evalBool(inv.E), pos, inv.Tags, inv.Text)
+		cs := env.conjuncts(inv.E, 0)
+		for k, cj := range cs {
+			l := label
+			if len(cs) > 1 {
+				l = fmt.Sprintf("%s.%d", label, k+1)
+			}
+			x.oblige(a.oname(fmt.Sprintf("loop%d:inv-keep", li.ord)), l, cond, cj.Term, pos, inv.Tags, cj.Text)
+		}
 	}
 	if len(ls.Decreases) > 0 {
 		old := variantStore[a][li]
@@ -1938,16 +2018,31 @@ func (x *Exec) assumeFrameSince(st *State, entry *State, fr *FrameSpec) {
 
 // ---------- ghost statements ----------
 
+// anchorMatches: "after Swap#1" matches the site "after List.Swap#1" (receiver type optional).
+func anchorMatches(spec, site string) bool {
+	if spec == site {
+		return true
+	}
+	sf, tf := strings.Fields(spec), strings.Fields(site)
+	if len(sf) == 2 && len(tf) == 2 && sf[0] == tf[0] && (sf[0] == "after" || sf[0] == "before") {
+		if i := strings.Index(tf[1], "."); i >= 0 && tf[1][i+1:] == sf[1] {
+			return true
+		}
+	}
+	return false
+}
+
 func (a *Activation) ghostAt(anchor string, st *State, rc string, results []Val, lookup func(string) (Val, bool)) {
 	if a.spec == nil || a.depth > 0 {
 		return
 	}
 	x := a.x
 	c := x.ctx
-	for _, g := range a.spec.Ghost {
-		if g.Anchor != anchor {
+	for gi, g := range a.spec.Ghost {
+		if !anchorMatches(g.Anchor, anchor) {
 			continue
 		}
+		x.anchorsHit[gi] = true
 		var env *Env
 		if results != nil {
 			env = a.postEnv(st, results)
@@ -1960,6 +2055,34 @@ func (a *Activation) ghostAt(anchor string, st *State, rc string, results []Val,
 			cond = env.evalBool(g.Cond)
 		}
 		switch g.Kind {
+		case "var":
+			old, ok := st.gvars[g.Field]
+			if !ok {
+				efail("assignment to undeclared ghost variable %s", g.Field)
+			}
+			nv := env.eval(g.V)
+			st.gvars[g.Field] = x.nameVal("g_"+g.Field, c.iteVal(cond, nv, old))
+		case "assert":
+			nlem := x.count("lemma@" + anchor)
+			if g.Field == "" {
+				f := env.evalBool(g.V)
+				x.oblige("lemma", fmt.Sprintf("%s#%d", strings.ReplaceAll(anchor, " ", "-"), nlem), rc, f, a.fn.Pos(), nil, g.Text)
+				c.Assume(implies(rc, f))
+			} else {
+				// strong induction on the natural number g.Field: (forall j' < j. P(j')) ==> P(j), then assume forall j >= 0. P(j)
+				j := c.boundVar(g.Field)
+				ch := env.child()
+				ch.vars[g.Field] = intVal(j)
+				pj := ch.evalBool(g.V)
+				j2 := c.boundVar(g.Field)
+				ch2 := env.child()
+				ch2.vars[g.Field] = intVal(j2)
+				pj2 := ch2.evalBool(g.V)
+				ih := fmt.Sprintf("(forall ((%s Int)) (=> (and (<= 0 %s) (< %s %s)) %s))", j2, j2, j2, j, pj2)
+				step := fmt.Sprintf("(forall ((%s Int)) (=> (and (<= 0 %s) %s) %s))", j, j, ih, pj)
+				x.oblige("lemma", fmt.Sprintf("%s#%d:induction-step", strings.ReplaceAll(anchor, " ", "-"), nlem), rc, step, a.fn.Pos(), nil, g.Text)
+				c.Assume(implies(rc, fmt.Sprintf("(forall ((%s Int)) (=> (<= 0 %s) %s))", j, j, pj)))
+			}
 		case "field":
 			obj := env.eval(g.X)
 			n := namedStruct(obj.T)
